@@ -218,6 +218,8 @@ MC_N == 4
 MC_PoolOf == <<"pa", "pa", "pa", "pb">>
 MC_KindOf == <<"empty", "empty", "drifted", "empty">>
 MC_InitPhase == <<"init", "init", "init", "absent">>
+\* second checked configuration: consolidation (all-or-nothing validation of multi-node commands) and static drift
+MC2_KindOf == <<"under", "under", "sdrifted", "under">>
 MC_EnvOf == <<{"NotReady", "Ready"}, {"DeleteClaim", "Terminate", "Gone"}, {"DeleteNode", "NotReady", "Ready"},
               {"Launch", "Register", "Initialize", "DeleteClaim", "Gone"}>>
 AllEnv == {"Launch", "Register", "Initialize", "NotReady", "Ready", "DeleteClaim", "DeleteNode", "Terminate", "Gone"}
